@@ -886,6 +886,18 @@ class Interp:
                 op = {"wrapping_sub": "Sub", "wrapping_add": "Add", "wrapping_mul": "Mul"}.get(fn)
                 if op:
                     return self.arith(op, x, args[1], ty)
+            if fn in ("wrapping_shl", "wrapping_shr"):
+                # the shift amount is taken modulo the width
+                k = args[1]
+                w = TY[ty][0]
+                if not isinstance(k, AI):
+                    raise Unsupported(name)
+                if k.lo // w != k.hi // w:
+                    raise Undecided("wrapping shift amount crosses a multiple of the width")
+                km = AI(k.ty, k.lo % w, k.hi % w, k.dir, None)
+                if fn == "wrapping_shr":
+                    return self.arith("Shr", x, km, ty)
+                return self.arith("Shl", x, km, ty)
             if fn in ("min", "max"):
                 return self.minmax(fn, x, args[1])
             if fn in ("trailing_zeros", "count_ones", "leading_ones", "trailing_ones", "count_zeros"):
